@@ -27,6 +27,8 @@ CLAIMS = {
  "C19": ("model_checking", "Real SSA of orderedProperties.MarshalJSON and basicChecks with symbolic property presence, symbolic PropertyOrder sequences (duplicates, absent names) and every map iteration order: emitted key sequence = listed-and-present names in list order then the rest ascending; duplicates rejected.", "§6 C19"),
  "C05": ("model_checking", "Behavioural equivalence of a schema and its JSON round trip decided for all instances of the template: both are resolved natively, imported, and the real Validate runs on both with one symbolic instance per path (schema documents of both drafts; Go-constructed Schema values with each exported field nil / empty / null constant / populated / nested, alone and in pairs). Kernels from the real SSA: integer.UnmarshalJSON against the 'integral and within int32' specification with encoding/json's number parsing as a contract stub; the struct+map splice and true/false folding of Schema.MarshalJSON with json.Marshal as a contract stub. Byte-identity of the second marshal and keyword survival are native scaffold observations.", "§6 C05"),
  "C20": ("exploration", "CloneSchemas executed from its real SSA in the engine (reflect model over the Schema struct; the package's field table computed by running its initialiser in the engine) on every tree shape of an enumerated family: each of the 23 subschema-bearing fields found from the Go types x {empty container, one node, two nodes} x a second field x a nested child; on the engine heap the clone shares no Schema object with the original, has the same shape and scalars, and shares non-schema slices; each path is repeated natively. There is no symbolic data, so the solver decides nothing: exploration level.", "§6 C20"),
+ "C04": ("model_checking", "Types are enumerated (declared programs); per type the inferred schema is resolved natively and imported, the instance template is assumed to satisfy O-enc(T) - the encoding/json contract whose struct layer is observed on the real encoding/json by probe values - and every path of the real Validate must end in nil: covers all integers of each sized kind, nil/non-nil at every pointer and slice, every subset of omitted optional fields.", "§6 C04"),
+ "C09": ("model_checking", "Per enumerated type, the instance is free; on every path with verdict nil the SMT query PC and not O-dec(T)(I) must be unsatisfiable (decoding with unknown fields disallowed; integers as integer literals within the 64-bit field's range); counterexamples are replayed with the real json.Decoder.", "§6 C09"),
 }
 
 ALL = [f"C{i:02d}" for i in range(1, 21)]
